@@ -878,8 +878,11 @@ def tokenize(content: str, lenient: bool = False) -> tuple[list[Token], list[Any
         for pattern, token_type in compiled_patterns:
             # GRAMMAR_SENTINEL must only match at document start (position 0)
             # to prevent silent data loss in nested assignments like NOTE::OCTAVE::5.1.0
+            # When YAML frontmatter was stripped, the document starts with blank-line padding
+            # (newlines only, which keep line numbers aligned): the sentinel is still at the start.
             if token_type == TokenType.GRAMMAR_SENTINEL and pos != 0:
-                continue  # Skip GRAMMAR_SENTINEL pattern if not at position 0
+                if not (content.startswith("OCTAVE::", pos) and not content[:pos].strip("\n")):
+                    continue  # Skip GRAMMAR_SENTINEL pattern if not at document start
 
             match = pattern.match(content, pos)
             if match:
